@@ -702,6 +702,22 @@ func (r *c18Run) exec(line string) {
 		r.stats["inject-readonly"]++
 	case "unblockact":
 		_, err = api.SetStreamReadonly(ctx, &client.SetStreamReadonlyRequest{Name: activityStream, Readonly: false})
+	case "deaf", "hear":
+		// the activity partition's leader stops / resumes taking messages off NATS (a gap in the
+		// partition's leadership): a publish sent meanwhile reaches nobody and is never acknowledged -
+		// the dispatcher must notice (no ack within the publish timeout) and publish again
+		if p := r.s.metadata.GetPartition(activityStream, 0); p == nil {
+			r.errs = append(r.errs, f[0]+": no activity partition")
+		} else {
+			p.mu.Lock()
+			if f[0] == "deaf" {
+				err = p.stopLeadingOrFollowing()
+				r.stats["inject-deaf"]++
+			} else {
+				err = p.startLeadingOrFollowing()
+			}
+			p.mu.Unlock()
+		}
 	case "timeout": // publish timeout in ms; 0 = 1 ns (the event is appended, Publish reports a failure)
 		if need(2) {
 			ms, _ := strconv.Atoi(f[1])
@@ -1273,6 +1289,9 @@ func c18Fixed() [][]string {
 		{"create a", "wait", "timeout 0", "pause a", "sleep 300", "restart", "wait"},
 		// a group creation without members (only reachable by a direct proposal): skipped by design
 		{"create a", "rawgroup g0", "create b", "wait"},
+		// nobody leads the activity partition for a while: what is published meanwhile is acknowledged
+		// by nobody and must be published again
+		{"create a", "wait", "timeout 400", "deaf", "create b", "pause a", "sleep 900", "hear", "timeout 2000", "wait"},
 	}
 }
 
@@ -1476,7 +1495,7 @@ func c18Judge(t *testing.T, res *vResult, model *vModel, name string, script []s
 	for _, b := range c18Bucket(r) {
 		res.Dist(b)
 	}
-	nontrivial := r.stats["inject-readonly"]+r.stats["inject-timeout"]+r.stats["inject-hold"]+r.stats["restart"]+r.stats["flip"]+r.stats["snapshot"] > 0
+	nontrivial := r.stats["inject-readonly"]+r.stats["inject-timeout"]+r.stats["inject-hold"]+r.stats["inject-deaf"]+r.stats["restart"]+r.stats["flip"]+r.stats["snapshot"] > 0
 	var ids []string
 	for _, m := range r.msgs {
 		ids = append(ids, fmt.Sprint(m.ev.Id))
